@@ -42,7 +42,8 @@ def main(argv):
     for w, np_, j in slow[:3]:
         print("slowest", round(w, 1), np_, j)
     for j, o in fails[:nex]:
-        print(j, o.get("info"), [w["consts"] for w in o.get("witnesses", [])][:1])
+        jj = {k: v for k, v in j.items() if k not in ("tree",)}
+        print(o["label"], "|", o.get("info"), "|", [w["consts"] for w in o.get("witnesses", [])][:1], "|", str(jj)[:300])
 
 
 if __name__ == "__main__":
